@@ -314,6 +314,9 @@ func keyCase(d *fDoc) (term string, fails []string) {
 		fails = append(fails, "loadSigningKey differs from the reference key store")
 	}
 	t := newTables(d.W)
+	t.needKid(d.Kid)
+	t.v.add(d.W.Named[d.Kid])
+	t.v.add(key)
 	term = t.v.wrap("CKey " + strings.Join([]string{t.term(), t.hex([]byte(d.Kid)), t.optBytes(key, err == nil)}, " "))
 	return
 }
@@ -408,9 +411,15 @@ func genFuncs(c *core.Ctx, kr *keyring) error {
 	}
 	// ---- loadSigningKey
 	{
-		worlds := []world{kr.w0, {Pool: nil, Named: kr.w0.Named}, {Pool: []byte{}, Named: map[string][]byte{}}, {Pool: []byte{0x11}, Named: kr.w0.Named}}
+		worlds := []world{kr.w0, {Pool: nil, Named: kr.w0.Named}, {Pool: []byte{}, Named: map[string][]byte{}}, {Pool: []byte{0x11}, Named: kr.w0.Named}, kr.wLongPool}
 		for wi := range worlds {
-			for _, kid := range []string{"POOL", "k1", "k2", "empty", "nokey", "", "../keys/k1", "a/b", "..", "k1..", "pool", "POOL "} {
+			kids := []string{"POOL", "k1", "k2", "empty", "nokey", "", "../keys/k1", "a/b", "..", "k1..", "pool", "POOL "}
+			if wi == 0 {
+				for _, n := range longKeyLens {
+					kids = append(kids, longKid(n))
+				}
+			}
+			for _, kid := range kids {
 				d := &fDoc{Kind: "key", W: &worlds[wi], Kid: kid}
 				term, fails := keyCase(d)
 				emit(d, term, fails)
@@ -443,6 +452,24 @@ func genFuncs(c *core.Ctx, kr *keyring) error {
 	addT("kid-number", func(t *tokSpec) { t.Hdr, t.SignKey = `{"kid":7}`, kr.poolSign() }, &kr.w0)
 	addT("hdr-null", func(t *tokSpec) { t.Hdr, t.SignKey = `null`, kr.poolSign() }, &kr.w0)
 	addT("hdr-array", func(t *tokSpec) { t.Hdr = `[]` }, &kr.w0)
+	for _, n := range longKeyLens {
+		n := n
+		addT(fmt.Sprintf("longkey%d", n), func(t *tokSpec) { t.Hdr, t.SignKey = hdrFor(longKid(n)), kr.long[n] }, &kr.w0)
+		for kind := 0; kind < 3; kind++ {
+			kind := kind
+			addT(fmt.Sprintf("longkey%d-variant%d", n, kind), func(t *tokSpec) {
+				t.Hdr, t.SignKey = hdrFor(longKid(n)), keyVariant(kr.long[n], kind)
+			}, &kr.w0)
+		}
+	}
+	{
+		dbl := append(append([]byte{}, kr.longPool...), kr.longPool...)
+		addT("longpool", func(t *tokSpec) { t.Hdr, t.SignKey = hdrFor("POOL"), dbl }, &kr.wLongPool)
+		for kind := 0; kind < 3; kind++ {
+			kind := kind
+			addT(fmt.Sprintf("longpool-variant%d", kind), func(t *tokSpec) { t.Hdr, t.SignKey = hdrFor("POOL"), keyVariant(dbl, kind) }, &kr.wLongPool)
+		}
+	}
 	addT("key-other", func(t *tokSpec) { t.SignKey = kr.evil }, &kr.w0)
 	addT("key-k2-as-k1", func(t *tokSpec) { t.SignKey = kr.k2 }, &kr.w0)
 	addT("pool-undoubled", func(t *tokSpec) { t.Hdr, t.SignKey = hdrFor("POOL"), kr.pool }, &kr.w0)
